@@ -296,6 +296,16 @@ def run(ctx):
         if okg:
             # what the guesser loaded against the text of the files, read here in the ruleset's encoding: every n-gram the guesser
             # holds is a string over the loaded alphabet of the right length, and the three level files list the same contexts
+            # the alphabet the guesser holds is the one the trainer learned from the list (same characters, same order)
+            try:
+                import train_util as _tu
+                from lib_trainer.trainer_file_input import TrainerFileInput as _TFI
+                _, want_alpha = _tu.first_pass(list(_TFI(tf, enc).read_password()), ngram, 100)
+                if list(g['alphabet']) != list(want_alpha):
+                    viol.append({'property': 'C07', 'kind': 'omen-alphabet-differs-from-trainer', 'loaded': list(g['alphabet'])[:12], 'trainer': list(want_alpha)[:12],
+                                 'witness': {'passwords': pws, 'encoding': enc}})
+            except Exception as e_:
+                dist['alphabet_compare_skipped'] = dist.get('alphabet_compare_skipped', 0) + 1
             alpha = set(g['alphabet'])
             bad = [s for l, lst in g['ip'].items() for s in lst if len(s) != g['ngram'] - 1 or not set(s) <= alpha]
             bad += [pre + ch for pre, d in g['cp'].items() for l, chs in d.items() for ch in chs
@@ -313,6 +323,27 @@ def run(ctx):
             sln = {i: l for i, l in enumerate(sc.ln) if i >= g['ngram']}
             if gln != sln:
                 viol.append({'property': 'C07', 'kind': 'omen-length-loaders-differ', 'witness': {'passwords': pws, 'encoding': enc}})
+    # 3c. whatever the seed: a list on which the Markov part learns nothing (every password is shorter than the n-gram size; coverage 1
+    # asks for no Markov share, so training succeeds): no alphabet, no n-gram - and that is what the guesser's loader reads back
+    tfe = os.path.join(root, 'no_omen.txt')
+    with open(tfe, 'w', encoding='utf-8') as f:
+        f.write('\n'.join(['1234', 'abcd', 'Pass', '#1ab', '1999', 'qwer', '1234']) + '\n')
+    rde = os.path.join(common.scratch_dir('rules'), 'c07empty')
+    oke, _ = common.train(tfe, rde, ngram=5, coverage=1.0)
+    cases += 1
+    if oke:
+        from lib_guesser.omen.input_file_io import load_rules as _lr
+        ge = {}
+        with contextlib.redirect_stdout(io.StringIO()), contextlib.redirect_stderr(io.StringIO()):
+            try:
+                _lr(os.path.join(rde, 'Omen'), ge)
+            except Exception:
+                pass
+        loaded_e = {'alphabet': list(ge.get('alphabet', [])), 'ip': sorted(s for lst in ge.get('ip', {}).values() for s in lst), 'cp': sorted(ge.get('cp', {}))}
+        if loaded_e != {'alphabet': [], 'ip': [], 'cp': []}:
+            viol.append({'property': 'C07', 'kind': 'omen-alphabet-differs-from-trainer', 'loaded': str(loaded_e)[:200], 'trainer': 'nothing learned',
+                         'witness': {'empty_omen_case': True}})
+        dist['empty_omen_case'] = 1
     # 3b. whatever the seed: a list whose base-structure probabilities (count / total, each correctly rounded) add up to 0.9999999999999999 -
     # every number of grammar.txt is read back as that number by the guesser (no flag: nothing is rescaled) and by the scorer
     tfb = os.path.join(root, 'base_sum.txt')
